@@ -1,5 +1,6 @@
 /- helper lemmas for property C16: objects ↔ dictionaries -/
 import Rsa.Lemmas.C16
+import Std.Data.String.ToNat
 
 set_option linter.unusedSectionVars false
 set_option linter.unusedVariables false
@@ -500,6 +501,109 @@ theorem model_roundtrip (o : Val) (h : IsModel o) :
             pure, Except.pure]
       · exact canon_mkModel_congr (canon_mkRdms_congr m1 m2 m3 m4 m5)
 
+/-! ### index-keyed dictionaries are read by constructed key -/
+
+/-- the keys of `d` are `key i, key (i+1), …` in this order -/
+def keysFrom (key : Nat → String) : Nat → Val → Prop
+  | _, .dnil => True
+  | i, .dcons k _ r => k = key i ∧ keysFrom key (i + 1) r
+  | _, _ => False
+
+def nthVal : Val → Nat → Option Val
+  | .dcons _ v _, 0 => some v
+  | .dcons _ _ r, j + 1 => nthVal r j
+  | _, _ => none
+
+theorem get?_keysFrom (key : Nat → String) (hinj : ∀ i j, key i = key j → i = j) (d : Val) :
+    ∀ i j v, keysFrom key i d → nthVal d j = some v → d.get? (key (i + j)) = some v := by
+  induction d with
+  | none => intro i j v h; simp [keysFrom] at h
+  | str s => intro i j v h; simp [keysFrom] at h
+  | tens c sh el => intro i j v h; simp [keysFrom] at h
+  | dnil => intro i j v _ h; cases j <;> simp [nthVal] at h
+  | dcons k x r ihx ihr =>
+    intro i j v h hn
+    obtain ⟨hk, hr⟩ := h
+    subst hk
+    cases j with
+    | zero =>
+      simp [nthVal] at hn
+      subst hn
+      simp [Val.get?]
+    | succ j =>
+      simp only [nthVal] at hn
+      have hne : key i ≠ key (i + (j + 1)) := by
+        intro e
+        have := hinj _ _ e
+        omega
+      simp only [Val.get?, hne, if_false]
+      have := ihr (i + 1) j v hr hn
+      have e : i + 1 + j = i + (j + 1) := by omega
+      rw [e] at this
+      exact this
+
+theorem byIndexAux_suffix (key : Nat → String) (d0 : Val) (sfx : Val) :
+    ∀ i, keysFrom key i sfx →
+      (∀ j v, nthVal sfx j = some v → d0.get? (key (i + j)) = some v) →
+      byIndexAux key d0 i sfx.size = .ok sfx := by
+  induction sfx with
+  | none => intro i h; simp [keysFrom] at h
+  | str s => intro i h; simp [keysFrom] at h
+  | tens c sh el => intro i h; simp [keysFrom] at h
+  | dnil => intro i _ _; rfl
+  | dcons k x r ihx ihr =>
+    intro i h hg
+    obtain ⟨hk, hr⟩ := h
+    subst hk
+    have h0 := hg 0 x (by simp [nthVal])
+    have hr' := ihr (i + 1) hr (by
+      intro j v hn
+      have := hg (j + 1) v (by simpa [nthVal] using hn)
+      have e : i + 1 + j = i + (j + 1) := by omega
+      rw [e]
+      exact this)
+    simp only [Nat.add_zero] at h0
+    simp [Val.size, byIndexAux, req, h0, hr', bind, Except.bind, pure, Except.pure]
+
+/-- reading by constructed key returns the dictionary itself when its keys already are
+    `key 0, key 1, …` in order -/
+theorem byIndex_keysFrom (key : Nat → String) (hinj : ∀ i j, key i = key j → i = j) (d : Val)
+    (h : keysFrom key 0 d) : byIndex key d = .ok d :=
+  byIndexAux_suffix key d d 0 h (fun j v hn => get?_keysFrom key hinj d 0 j v h hn)
+
+/-- … and never depends on the storage order: two dictionaries with the same lookups and the
+    same number of entries are read identically -/
+theorem byIndexAux_congr (key : Nat → String) (d1 d2 : Val) (h : ∀ k, d1.get? k = d2.get? k) :
+    ∀ n i, byIndexAux key d1 i n = byIndexAux key d2 i n := by
+  intro n
+  induction n with
+  | zero => intro i; rfl
+  | succ n ih => intro i; simp [byIndexAux, req, h, ih]
+
+theorem keysFrom_of_norm_eq (key : Nat → String) {a b : Val} (h : norm a = norm b) :
+    ∀ i, keysFrom key i b → keysFrom key i a := by
+  induction a generalizing b with
+  | none => cases b <;> simp [norm] at h <;> intro i hb <;> simp [keysFrom] at hb
+  | str s => cases b <;> simp [norm] at h <;> intro i hb <;> simp [keysFrom] at hb
+  | tens c sh el => cases b <;> simp [norm] at h <;> intro i hb <;> simp [keysFrom] at hb
+  | dnil => intro i _; trivial
+  | dcons k v r ihv ihr =>
+    cases b <;> simp [norm] at h
+    rename_i k' v' r'
+    intro i hb
+    obtain ⟨hk, hr⟩ := hb
+    exact ⟨h.1.trans hk, ihr h.2.2 (i + 1) hr⟩
+
+theorem indexKey_inj : ∀ i j, indexKey i = indexKey j → i = j :=
+  fun _ _ h => Nat.repr_injective h
+
+theorem modelKey_inj : ∀ i j, modelKey i = modelKey j → i = j := by
+  intro i j h
+  apply Nat.repr_injective
+  have := congrArg String.toList h
+  simp only [modelKey, String.toList_append] at this
+  exact String.toList_inj.mp (List.append_cancel_left this)
+
 /-! ### results -/
 
 /-- the `models` attribute: a chain `model_0 ↦ m₀, model_1 ↦ m₁, …` of model objects -/
@@ -540,9 +644,31 @@ theorem models_roundtrip (ms : Val) (h : ModelsWF ms) :
       | tens _ _ _ => simp [norm] at hn
       | dnil => simp [norm] at hn
 
+theorem keysFrom_mapValsM (key : Nat → String) (f : Val → Except Err Val) (d : Val) :
+    ∀ d' i, d.mapValsM f = .ok d' → keysFrom key i d → keysFrom key i d' := by
+  induction d with
+  | none => intro d' i _ h; simp [keysFrom] at h
+  | str s => intro d' i _ h; simp [keysFrom] at h
+  | tens c sh el => intro d' i _ h; simp [keysFrom] at h
+  | dnil =>
+    intro d' i h _
+    simp [Val.mapValsM, pure, Except.pure] at h
+    subst h; trivial
+  | dcons k v r ihv ihr =>
+    intro d' i h hk
+    simp only [Val.mapValsM, bind, Except.bind] at h
+    split at h
+    · cases h
+    · split at h
+      · cases h
+      · rename_i r' hr'
+        simp [pure, Except.pure] at h
+        subst h
+        exact ⟨hk.1, ihr r' (i + 1) hr' hk.2⟩
+
 theorem result_roundtrip (rc : Val → Val → Val → Nat → Val × Val × Val)
     (ev dof va nc me cv nr np ms mv dv ncv : Val)
-    (hms : ModelsWF ms) (hsec : secondDim ev = some ms.size) :
+    (hms : ModelsWF ms) (hkeys : keysFrom modelKey 0 ms) (hsec : secondDim ev = some ms.size) :
     ∃ d, resultToDict (mkResult ev dof va nc me cv nr np ms mv dv ncv) = .ok d ∧
       d.get? versionKey = none ∧
       ∀ d', Sim d' d → ∃ o', resultFromDict rc d' = .ok o' ∧
@@ -565,10 +691,13 @@ theorem result_roundtrip (rc : Val → Val → Val → Nat → Val × Val × Val
     obtain ⟨v11, g11, n11⟩ := hs "diff_var" dv (by simp [mkResult, mkDict, Val.get?])
     obtain ⟨v12, g12, n12⟩ := hs "noise_ceil_var" ncv (by simp [mkResult, mkDict, Val.get?])
     obtain ⟨ms', m1, m2, m3⟩ := f1 v9 n9
+    have hb : byIndex modelKey v9 = .ok v9 :=
+      byIndex_keysFrom modelKey modelKey_inj v9
+        (keysFrom_of_norm_eq modelKey n9 0 (keysFrom_mapValsM modelKey modelToDict ms msD 0 t1 hkeys))
     have hsec' : secondDim v1 = some ms'.size := by
       rw [secondDim_of_norm_eq n1, hsec, m3]
     refine ⟨mkResult v1 v2 v3 v4 v5 v6 v7 v8 ms' v10 v11 v12, ?_, ?_⟩
-    · simp [resultFromDict, req, g1, g2, g3, g4, g5, g6, g7, g8, g9, g10, g11, g12, m1, hsec',
+    · simp [resultFromDict, req, g1, g2, g3, g4, g5, g6, g7, g8, g9, g10, g11, g12, hb, m1, hsec',
         bind, Except.bind, pure, Except.pure]
     · simp only [mkResult, mkDict, canon_dcons, canon_dnil, canon_of_norm_eq n1,
         canon_of_norm_eq n2, canon_of_norm_eq n3, canon_of_norm_eq n4, canon_of_norm_eq n5,
